@@ -116,7 +116,7 @@ Qed.
 
 Lemma handle_unrecognized_erronly q k : ErrOnly false (handle_unrecognized_method q k).
 Proof.
-  unfold handle_unrecognized_method; constructor; intros [|r]; cbn; auto.
+  unfold handle_unrecognized_method; destruct (req_only_if_cached _); [apply EO_Ret; [intros E; discriminate|intros E; discriminate]|]; constructor; intros [|r]; cbn; auto.
   destruct (_ && _); auto.
   unfold get_refs_clean; constructor; intros ans. apply invalidate_cache_erronly; auto.
 Qed.
